@@ -351,6 +351,76 @@ class Emit:
         s.last_rpo = list(reversed(post))
         return be
 
+    def succs(s, f):
+        succ = {}
+        for bn, insts in f.blocks.items():
+            t = insts[-1] if insts else None
+            ss = []
+            if t is not None:
+                if t['op'] == 'br': ss = [t['dest']] if 'dest' in t else [t['t'], t['f']]
+                elif t['op'] == 'switch': ss = [t['default']] + [lb for (_, lb) in t['cases']]
+                elif t['op'] == 'invoke': ss = [t['normal']]
+            succ[bn] = ss
+        return succ
+
+    def loop_order(s, f, rpo, bedges):
+        """Block order for the C text: topological w.r.t. all non-back edges, every natural loop contiguous with its inner loops nested inside it,
+        and (latch_after) the block after which the single latch of each loop header is emitted = the last block of that loop.
+        cbmc unwinds per backward goto and merges paths only at forward-goto targets in text order; with loop bodies scattered (plain RPO) the
+        latch of an outer loop is visited once per unwinding of an inner loop and code is re-walked."""
+        succ = s.succs(f)
+        reach = set(rpo)
+        pred = {b: [] for b in reach}
+        for b in reach:
+            for x in succ[b]:
+                if x in reach: pred[x].append(b)
+        headers = sorted(set(h for (_, h) in bedges), key=lambda b: rpo.index(b))
+        body = {}
+        for h in headers:
+            bd = {h}; work = [src for (src, t) in bedges if t == h]
+            while work:
+                x = work.pop()
+                if x in bd: continue
+                bd.add(x); work.extend(pred[x])
+            body[h] = bd
+        idx = {b: i for i, b in enumerate(rpo)}
+        def order_region(nodes, entry):
+            # loops directly inside this region (maximal): headers in nodes (other than the region's own header) not contained in another such loop
+            inner = [h for h in headers if h in nodes and h != entry and body[h] <= nodes]
+            top = [h for h in inner if not any(h != g and h in body[g] for g in inner)]
+            rep = {}
+            for h in top:
+                for b in body[h]: rep[b] = h
+            def R(b): return rep.get(b, b)
+            # collapsed DAG over representatives
+            reps = sorted(set(R(b) for b in nodes), key=lambda b: idx[b])
+            adj = {r: set() for r in reps}; indeg = {r: 0 for r in reps}
+            for b in nodes:
+                for x in succ[b]:
+                    if x not in nodes or (b, x) in bedges: continue
+                    rb, rx = R(b), R(x)
+                    if rb != rx and rx not in adj[rb]:
+                        adj[rb].add(rx); indeg[rx] += 1
+            out = []; ready = [r for r in reps if indeg[r] == 0]
+            while ready:
+                ready.sort(key=lambda b: idx[b])
+                r = ready.pop(0)
+                if r in top: out.extend(order_region(body[r], r))
+                else: out.append(r)
+                for x in adj[r]:
+                    indeg[x] -= 1
+                    if indeg[x] == 0: ready.append(x)
+            if len(set(out)) != len(nodes): raise Unsupported('irreducible control flow in ' + f.name)
+            return out
+        order = order_region(reach, rpo[0])
+        pos = {b: i for i, b in enumerate(order)}
+        latch_after = {}
+        for h in headers:
+            last = max(body[h], key=lambda b: pos[b])
+            latch_after.setdefault(last, []).append(h)
+        for k in latch_after: latch_after[k].sort(key=lambda h: -pos[h])      # inner loop's latch first
+        return order, latch_after
+
     # ---------------- function body
     def emit_fn(s, f, tid=None):
         s.tid = tid; coro = tid is not None; s.ny = 0; resume = []; s.cur_f = f
@@ -498,12 +568,7 @@ class Emit:
         rpo = s.last_rpo            # blocks are emitted in reverse post-order: every edge that is not a DFS back edge goes forward in the C text,
                                     # and every loop header gets ONE latch (the only backward goto), so that cbmc's per-goto unwinding counter
                                     # counts iterations of the loop and symex never re-walks code through a backward non-loop jump
-        rpo_idx = {b: i for i, b in enumerate(rpo)}
-        latch_after = {}            # block name -> [headers whose latch is emitted right after it]
-        for h in sorted(set(t for (_, t) in all_bedges)):
-            srcs = [f_ for (f_, t) in all_bedges if t == h]
-            last = max(srcs, key=lambda b: rpo_idx[b])
-            latch_after.setdefault(last, []).append(h)
+        rpo, latch_after = s.loop_order(f, rpo, all_bedges)    # loop bodies contiguous (inner loops nested), latch of a loop after its last block
         bedges = all_bedges if spinU is not None else set()
         spin_ctr = {}; hdr_ctr = {}
         for e in sorted(bedges):
